@@ -149,3 +149,20 @@ func VerifC03Concurrent(n int) {
 	<-done
 	verifReach("end")
 }
+
+// VerifC03DeepRelay: a relay chain `depth` levels deep (the decoder puts no bound on the hop
+// count) around a message with one symbolic option is decoded and then used by every read-only
+// operation, printing included: each of them returns (work that doubled with every level would not
+// within any budget: such a run is handed to the native watchdog as a termination candidate).
+func VerifC03DeepRelay(depth int) {
+	inner := append([]byte{1}, verifBytes("xid", 3)...)
+	inner = append(inner, 0, 250, 0, 2)
+	inner = append(inner, verifBytes("val", 2)...)
+	d, err := FromBytes(verifRelayChain(depth, inner))
+	verifAssert(err == nil, "chain-decodes")
+	if err != nil {
+		return
+	}
+	verifC03UseMessage(d)
+	verifReach("end")
+}
